@@ -146,6 +146,21 @@ forall (margin : R) (c1 : vec3 R) (m1 : mat3 R) (r1 : R) (c2 : vec3 R) (m2 : mat
 Proof. exact C13_sphere_capsule_l. Qed.
 Print Assumptions C13_sphere_capsule.
 
+(* mjc_SphereCylinder, deep arm (sphere centre strictly inside the cylinder: |x| < h along the unit axis a, radial distance rho < R): exactly one of the cap and side
+   sub-colliders is used, the nearer one, so the reported dist is -min(h - |x|, R - rho) - r = (signed distance of the centre to the solid cylinder) - r, for centres in the
+   upper AND the lower half; a contact is emitted iff that is <= margin.  (The outside arms -- side, cap, corner -- have no theorem: tie and oracle only.) *)
+Theorem C13_sphere_cylinder_deep :
+forall (margin : R) (c1 : vec3 R) (m1 : mat3 R) (r : R) (c2 : vec3 R) (m2 : mat3 R) (Rc h : R),
+  let a := zaxis m2 in
+  let x := dot3 a (sub3 c1 c2) in
+  let rho := norm3 (sub3 (sub3 c1 c2) (scl3 a x)) in
+  dot3 a a = 1 -> Rabs x < h -> rho < Rc -> 0 <= margin + r + Rc ->
+  let d := - Rmin (h - Rabs x) (Rc - rho) - r in
+  (margin < d -> sphereCylinder margin c1 m1 r c2 m2 Rc h = []) /\
+  (d <= margin -> exists (pos n : vec3 R), sphereCylinder margin c1 m1 r c2 m2 Rc h = [(d, pos, n, zero3)]).
+Proof. exact C13_sphere_cylinder_deep_l. Qed.
+Print Assumptions C13_sphere_cylinder_deep.
+
 (* mjraw_CapsuleCapsule, PARTIAL: only the non-parallel arm (|det| >= mjMINVAL): the chosen segment parameters lie in [-1,1] and the result is the
    sphere-sphere test (C13_sphere_sphere) of the two segment points, hence dist = |q2-q1| - r1 - r2 >= true distance.  MISSING: that (q1,q2) is the
    nearest pair of the two segments (only checked by the oracle), and the whole parallel arm (see C13_capsule_parallel_refuted) *)
